@@ -26,7 +26,10 @@ m('c04_one_iteration', 'C04', MO, "                max_iterations = 1000  # Prev
 m('c06_revert_f6', ['C06', 'C05'], S, "                self._runloop_task = loop.create_task(self._run_loop(), name=f'{self}._run_loop', context=runloop_context)", "                self._runloop_task = loop.create_task(self._run_loop(), name=f'{self}._run_loop')", 'revert F6')
 m('c06_parallel_bus_skips_lock', ['C06', 'C05'], S, "        async with _get_global_lock():\n            # Process the event\n            await self.process_event(event, timeout=timeout)\n\n            # Mark task as done only if we got it from the queue\n            if from_queue:\n                self.event_queue.task_done()\n", "        if self.parallel_handlers:\n            await self.process_event(event, timeout=timeout)\n            if from_queue:\n                self.event_queue.task_done()\n        else:\n          async with _get_global_lock():\n            # Process the event\n            await self.process_event(event, timeout=timeout)\n\n            # Mark task as done only if we got it from the queue\n            if from_queue:\n                self.event_queue.task_done()\n", 'parallel buses process without the global lock')
 # ---- C07
-m('c07_no_path_check', 'C07', S, "            if target_bus.name in event.event_path:\n", "            if target_bus.name in event.event_path[-1:]:\n", 'forward-loop check only looks at the last bus: cycles never terminate')
+m('c07_no_path_check', 'C07', S, "            if target_bus.name in event.event_path:\n", "            if target_bus.name in event.event_path[-1:]:\n", 'two sites: forward-loop check (at selection and again before forwarding) only looks at the last bus: cycles never terminate',
+  more=[(S, "            and handler.__self__.name in event.event_path\n", "            and handler.__self__.name in event.event_path[-1:]\n")])
+m('c07_no_loop_check_at_all', 'C07', S, "            if target_bus.name in event.event_path:\n", "            if False:\n", 'two sites: no forwarding-loop prevention at all: cycles forward for ever',
+  more=[(S, "            and handler.__self__.name in event.event_path\n", "            and False\n")])
 m('c07_path_twice', 'C07', S, "                if self.name not in event.event_path:\n", "                if self.name not in event.event_path[:-1]:\n", 'bus name appended again on re-entry')
 # ---- C08
 m('c08_cancel_overwrites_done_children', 'C08', MO, "                if result.status == 'pending':\n                    # print('CANCELLING CHILD HANDLER'", "                if result.status != 'started':\n                    # print('CANCELLING CHILD HANDLER'", 'a parent timeout overwrites results of already completed children')
